@@ -31,6 +31,7 @@ def current(cls):
     modifies()
     raises_nothing()
     ensures('top_of_stack', ret is (stack()[len(stack()) - 1] if len(stack()) > 0 else None))
+    replay('top_of_stack', 'process_scope')
 
 
 @contract('plumpy.processes.Process._run_task', props=['C18'])
